@@ -461,7 +461,7 @@ func c12(ctx *hlib.Ctx) {
 
 	maxOps := 25
 	if ctx.Tier == "thorough" {
-		maxOps = 60
+		maxOps = 40
 		// exhaustive small scope (validates the correspondence; it is not the proof):
 		// every history of length <= 4 over 11 operations, initial capacity 0 and 2
 		alpha := []c12op{W(1, 2), W(), WA(3, 3), WA(4), WA(0, 5, 6, 7), R(2), RA(3, 1), SK(0, 0), SK(-1, 1), SK(0, 2), SZ}
